@@ -346,6 +346,7 @@ inductive HKind
   | badResp     -- phase 1 then phase 2 with a wrong HMAC    → RecordFailure
   | good        -- phase 1 then phase 2 with the right HMAC  → RecordSuccess
   | phase1      -- phase 1 only                              → neither
+  | expired     -- known client whose credentials have expired → refused, neither recorded
 deriving DecidableEq, Repr
 
 def HKind.anon : HKind → Bool
@@ -355,12 +356,17 @@ def HKind.anon : HKind → Bool
 /-- failure / success / neither -/
 def HKind.outcome : HKind → Option Bool
   | .anonOk | .good => some true
-  | .phase1 => none
+  | .phase1 | .expired => none
   | _ => some false
 
 /-- Response classes of `HandleHandshake`. -/
 inductive HResp | blk | ban | rate | ok | fail | chal
 deriving DecidableEq, Repr
+
+/-- response of an attempt that records neither a failure nor a success -/
+def HKind.neutralResp : HKind → HResp
+  | .expired => .fail
+  | _ => .chal
 
 structure HState where
   ipm : IPM
@@ -396,7 +402,7 @@ def handshake (cfg : HCfg) (t ip : Nat) (k : HKind) (s : HState) : HState × HRe
     | some false =>
       ({ s with rl := if k.anon then (rlStep cfg.rl cfg.U t (.allow ip) s.rl).1 else s.rl,
                 bf := (step cfg.bf (t, .fail ip) s.bf).1 }, .fail)
-    | none => (s, .chal)
+    | none => (s, k.neutralResp)
 
 def hStep (cfg : HCfg) (t : Nat) (e : HEv) (s : HState) : HState × Option HResp :=
   match e with
